@@ -90,6 +90,15 @@ extern "C" void h_dis()
   printf("REPLAY-INFO: address=0x%x flags=0x%x endian=%d bytes=%02x %02x %02x %02x %02x %02x -> count=%d max_read_offset=%u outside=%d text='%s'\n", address, flags, m.endian, g_win[0], g_win[1], g_win[2], g_win[3], g_win[4], g_win[5], count, g_max_off, g_outside, instruction);
 #endif
   OBL(count >= UNIT && count <= MAXLEN && (count % UNIT) == 0, "C08.dis: length is at least one unit, at most the longest instruction, a multiple of the unit");
+#ifdef SPEC_AVR8_LEN
+  /* AVR instruction set manual: JMP (1001 010k kkkk 110k), CALL (1001 010k kkkk 111k), LDS (1001 000d dddd 0000) and
+     STS (1001 001d dddd 0000) are the 32-bit instructions; every other opcode word is a 16-bit instruction */
+  {
+    unsigned w0 = g_win[0] | (g_win[1] << 8);
+    int is32 = ((w0 & 0xfe0c) == 0x940c) || ((w0 & 0xfc0f) == 0x9000);
+    OBL(count == (is32 ? 4 : 2), "C08.avr8: the length is 4 exactly for jmp, call, lds and sts (the manual's 32-bit instructions) and 2 for every other opcode word");
+  }
+#endif
 #ifndef TWOSAFETY
   OBL(!g_outside && g_max_off < (unsigned)count, "C08.dis: reads only the bytes of the instruction it reports");
 #else
